@@ -20,14 +20,14 @@ func TestMain(m *testing.M) { pbt.Main(m, "C16") }
 
 type Case struct {
 	Cfg   all.Cfg     `json:"cfg"`
-	Init  []int       `json:"init"`  // constructor values (variadic constructors only), handed over with spare capacity
-	Ops   []script.Op `json:"ops"`   // builds the state
-	Entry string      `json:"entry"` // variadic entry point exercised ("" = none)
-	Idx   int         `json:"idx"`   // raw index for Insert (resolved modulo size+1)
-	Vals  []int       `json:"vals"`  // values handed to the entry point
-	Spare int         `json:"spare"` // spare capacity of the slices handed over
-	Muts  []script.Op `json:"muts"`  // later container mutations
-	Warm  []int       `json:"warm"`  // read-only calls (chosen by these raw integers) made before each snapshot is taken
+	Init  []int       `json:"init"`          // constructor values (variadic constructors only), handed over with spare capacity
+	Ops   []script.Op `json:"ops"`           // builds the state
+	Entry string      `json:"entry"`         // variadic entry point exercised ("" = none)
+	Idx   int         `json:"idx"`           // raw index for Insert (resolved modulo size+1)
+	Vals  []int       `json:"vals"`          // values handed to the entry point
+	Spare int         `json:"spare"`         // spare capacity of the slices handed over
+	Muts  []script.Op `json:"muts"`          // later container mutations
+	Warm  []int       `json:"warm"`          // read-only calls (chosen by these raw integers) made before each snapshot is taken
 	Big   bool        `json:"big,omitempty"` // elements are indices into the 260-value domain (large contents, long variadics)
 }
 
